@@ -20,22 +20,22 @@ TRUSTED = ['clang-14 front end', 'CPython ast', 'sa/pyx.py normaliser', 'rule ta
 
 
 def r_cli_flags(repo, rep, R='R16.3'):
-    mod = repo.module('depccg/argparse.py')
-    fn = mod.get('add_common_parser_arguments')
+    from ..cli import cli_options
+    from ..pysym import show
+    mod, fn, options = cli_options(repo)
+    w = '%s:%s parse_args' % (mod.rel, fn.lineno)
+    langs = sorted({o.lang for o in options if o.lang in ('en', 'ja')})
     flags = {}
-    for n in ast.walk(fn):
-        if isinstance(n, ast.Call) and isinstance(n.func, ast.Attribute) and n.func.attr == 'add_argument':
-            names = [a.value for a in n.args if isinstance(a, ast.Constant) and isinstance(a.value, str)]
-            kw = {k.arg: k.value for k in n.keywords}
-            for nm in names:
-                if nm.startswith('--'):
-                    flags[nm] = kw
-    w = '%s:%s add_common_parser_arguments' % (mod.rel, fn.lineno)
+    for o in options:
+        for nm in o.flags:
+            if nm.startswith('--'):
+                flags.setdefault(nm, []).append(o)
+    desc = lambda os_: [{k: show(v)[:30] for k, v in o.kw.items() if k != 'help'} for o in os_]
     for flag, typ in (('--pruning-size', 'int'), ('--beta', 'float')):
-        kw = flags.get(flag)
-        ok = kw is not None and 'type' in kw and src(kw['type']) == typ and 'dest' not in kw
-        rep.check(ok, R, w, 'cli:' + flag, '%s is a %s option stored under its own name' % (flag, typ),
-                  '%s is declared as %s' % (flag, {k: src(v) for k, v in (kw or {}).items()}))
+        os_ = flags.get(flag, [])
+        ok = bool(os_) and {o.lang for o in os_} >= set(langs) and all(o.kw.get('type') == ('name', typ) and 'dest' not in o.kw for o in os_)
+        rep.check(ok, R, w, 'cli:' + flag, '%s is a %s option stored under its own name (for %s)' % (flag, typ, '/'.join(langs)),
+                  '%s is declared as %s' % (flag, desc(os_)))
     opts = {'disable_beta', 'beta', 'pruning_size'}
     for rel in ('depccg/argparse.py', 'depccg/__main__.py'):
         m_ = repo.module(rel)
@@ -52,10 +52,10 @@ def r_cli_flags(repo, rep, R='R16.3'):
                     rep.violation(R, '%s:%s' % (rel, n.lineno), '%s:option-overwritten:%s' % (rel, t.attr),
                                   'beam option `%s` is overwritten after the command line was parsed (`%s`): the user\'s setting does not reach the search' % (t.attr, src(n)[:60]))
     rep.ok(R, w, 'no code overwrites args.beta / args.pruning_size / args.disable_beta after parsing', nontrivial=False)
-    kw = flags.get('--disable-beta')
-    ok = kw is not None and src(kw.get('action', ast.Constant(None))) == "'store_true'" and 'dest' not in kw and 'default' not in kw
+    os_ = flags.get('--disable-beta', [])
+    ok = bool(os_) and {o.lang for o in os_} >= set(langs) and all(o.const('action') == 'store_true' and 'dest' not in o.kw and 'default' not in o.kw for o in os_)
     rep.check(ok, R, w, 'cli:--disable-beta', '--disable-beta is a store_true flag (default: filter on)',
-              '--disable-beta is declared as %s' % {k: src(v) for k, v in (kw or {}).items()})
+              '--disable-beta is declared as %s' % desc(os_))
 
 
 def check(repo, rep, tier):
